@@ -19,6 +19,8 @@
 #include <stdlib.h>
 #include <string.h>
 #include <stdint.h>
+#include <signal.h>
+#include <unistd.h>
 #include "htp/htp.h"
 #include "htp/htp_private.h"
 
@@ -44,7 +46,7 @@ typedef struct rec_s {
     long off[2];                    /* stream offsets */
     uint32_t bodyhash[2][64]; long bodylen[2][64];
     char cborder[64][256]; int cbolen[64];
-    long ncb;
+    long ncb, maxcb;
     int stall;
 } rec_t;
 
@@ -64,7 +66,15 @@ static const char *rcn(int r) { switch (r) { case -1: return "ERROR"; case 0: re
     case 3: return "DATA_OTHER"; case 4: return "STOP"; case 5: return "DATA_BUFFER"; } return "OTHER"; }
 static const char *ins(htp_connp_t *g) { if (g->in_state == htp_connp_REQ_CONNECT_PROBE_DATA) return "REQ_CONNECT_PROBE_DATA"; return htp_connp_in_state_as_string(g); }
 static const char *outs(htp_connp_t *g) { const char *s = htp_connp_out_state_as_string(g); if (!strcmp(s, "RES_BODY_FINALIZE")) return "RES_FINALIZE"; return s; }
-static long txi(const htp_tx_t *tx) { return tx ? (long) tx->index : -1; }
+/* Transactions are identified by the order in which the recorder first sees them (a serial kept in the transaction's
+ * user data), not by tx->index: after htp_connp_tx_freed() recycles list slots tx->index values repeat. */
+static __thread long g_serial;
+static long txi(const htp_tx_t *tx) {
+    if (tx == NULL) return -1;
+    long s = (long) (intptr_t) htp_tx_get_user_data(tx);
+    if (s == 0) { s = ++g_serial; htp_tx_set_user_data((htp_tx_t *) tx, (void *) (intptr_t) s); }
+    return s - 1;
+}
 static long clampl(int64_t v) { return v > 2000000000 ? 2000000000 : (v < -2000000000 ? -2000000000 : (long) v); }
 
 static void jstr(FILE *o, const unsigned char *p, size_t n) {
@@ -104,8 +114,21 @@ static void sink(htp_connp_t *c, const htp_tx_t *tx, const char *kind, const cha
 static int tx_level_body_cb_q(htp_tx_data_t *d);
 static int tx_level_body_cb_s(htp_tx_data_t *d);
 
+/* A call that does not return (C01/C09) cannot be observed from outside the process: the recorder gives up after maxcb
+ * callbacks or maxsec seconds inside one scenario, reports it as an End record and exits; the runner restarts after it. */
+static void give_up(const char *why) {
+    rec_t *r = R;
+    if (r && r->out) {
+        fprintf(r->out, "{\"e\":\"End\",\"live\":0,\"san\":true,\"what\":\"%s\",\"stall\":false,\"leftq\":0,\"lefts\":0,\"closed\":false,\"ntx\":0,\"nser\":0,\"ncb\":%ld,\"allocs\":0,\"failfn\":\"\"}\n", why, r->ncb);
+        fflush(r->out);
+    }
+    _exit(79);
+}
+static void on_alarm(int sig) { (void) sig; give_up("call does not return (time limit inside one scenario)"); }
+
 static int behave(rec_t *r, const char *hook, htp_tx_t *tx, const char **retname, const char **actname) {
     int hi = hookidx(hook);
+    if (r->ncb > r->maxcb) give_up("call does not return (callback limit inside one scenario)");
     long n = ++r->hookcount[hi];
     *retname = "OK"; *actname = "none";
     for (int i = 0; i < r->nbeh; i++) {
@@ -122,7 +145,7 @@ static int behave(rec_t *r, const char *hook, htp_tx_t *tx, const char **retname
 }
 
 static void note_order(rec_t *r, htp_tx_t *tx, int hi, int isdata) {
-    size_t i = tx->index;
+    size_t i = (size_t) txi(tx);
     if (i >= 64) return;
     char c = CBCODE[hi];
     int n = r->cbolen[i];
@@ -146,6 +169,11 @@ static int on_tx(const char *hook, htp_tx_t *tx) {
         tx->request_transfer_coding, r->cfgreqdecomp ? (int) tx->request_content_encoding : 1, (idx < 64 && r->expq[idx].p) ? r->expq[idx].wire : -1, (idx < 64 && r->expq[idx].p) ? (long) r->expq[idx].n : -1);
     if (!strcmp(hook, "response_complete")) fprintf(r->out, ",\"el\":%ld,\"ml\":%ld,\"dl\":%ld,\"st\":%d,\"tc\":%d,\"ce\":%d,\"wl\":%ld,\"xl\":%ld", clampl(tx->response_entity_len), clampl(tx->response_message_len), idx < 64 ? r->bodylen[1][idx] : -1, tx->response_status_number,
         tx->response_transfer_coding, r->cfgdecomp ? (int) tx->response_content_encoding_processing : 1, (idx < 64 && r->exps[idx].p) ? r->exps[idx].wire : -1, (idx < 64 && r->exps[idx].p) ? (long) r->exps[idx].n : -1);
+    if (!strcmp(hook, "transaction_complete")) {
+        htp_header_t *xh = tx->response_headers ? htp_table_get_c(tx->response_headers, "x-id") : NULL;
+        fputs(",\"uri\":", r->out); jbstr(r->out, tx->request_uri);
+        fputs(",\"xid\":", r->out); jbstr(r->out, xh ? xh->value : NULL);
+    }
     if (!strcmp(hook, "transaction_complete") && r->live_every) fprintf(r->out, ",\"live\":%ld,\"liveb\":%ld", vf_live, vf_live_bytes);
     fputs("}\n", r->out);
     if (b == 100) { htp_tx_destroy(tx); return HTP_OK; }
@@ -343,9 +371,11 @@ static void dump_tx(rec_t *r, FILE *o, htp_tx_t *tx, size_t slot) {
         htp_multipart_t *mp = htp_mpartp_get_multipart(tx->request_mpartp);
         fprintf(o, ",\"mp_flags\":%ld,\"mp_parts\":%zu", (long) (mp->flags & 0x7fffffff), htp_list_size(mp->parts));
     }
-    if (tx->index < 64) {
-        fprintf(o, ",\"qbody\":[%ld,%u],\"sbody\":[%ld,%u]", r->bodylen[0][tx->index], r->bodyhash[0][tx->index] & 0x7fffffff, r->bodylen[1][tx->index], r->bodyhash[1][tx->index] & 0x7fffffff);
-        fputs(",\"cbs\":", o); jcstr(o, r->cborder[tx->index]);
+    long ser = txi(tx);
+    fprintf(o, ",\"serial\":%ld", ser);
+    if (ser >= 0 && ser < 64) {
+        fprintf(o, ",\"qbody\":[%ld,%u],\"sbody\":[%ld,%u]", r->bodylen[0][ser], r->bodyhash[0][ser] & 0x7fffffff, r->bodylen[1][ser], r->bodyhash[1][ser] & 0x7fffffff);
+        fputs(",\"cbs\":", o); jcstr(o, r->cborder[ser]);
     }
     fputc('}', o);
 }
@@ -406,7 +436,7 @@ static void run_scenario(rec_t *r, char **lines, int nl, const char *name, int p
     memset(r->expq, 0, sizeof r->expq); memset(r->exps, 0, sizeof r->exps);
     memset(r->bodyhash, 0, sizeof r->bodyhash); memset(r->bodylen, 0, sizeof r->bodylen);
     memset(r->cbolen, 0, sizeof r->cbolen); for (int i = 0; i < 64; i++) r->cborder[i][0] = 0;
-    r->off[0] = r->off[1] = 0; r->pid = pid;
+    r->off[0] = r->off[1] = 0; r->pid = pid; g_serial = 0;
     for (int i = 0; i < nl; i++) {
         char *l = lines[i];
         if (l[0] == 'K') { strncat(kline, l + 1, sizeof kline - strlen(kline) - 2); size_t m = strlen(kline); if (m && kline[m - 1] == '\n') kline[m - 1] = ' '; }
@@ -425,14 +455,18 @@ static void run_scenario(rec_t *r, char **lines, int nl, const char *name, int p
     }
     r->steps = (int) kv(kline, "steps", 0); r->dump = (int) kv(kline, "dump", 0); r->freed = (int) kv(kline, "freed", 0);
     r->cfgdecomp = (int) kv(kline, "decomp", 1); r->cfgreqdecomp = (int) kv(kline, "reqdecomp", 0);
+    r->maxcb = kv(kline, "maxcb", 400000);
+    alarm((unsigned) kv(kline, "maxsec", 300));
     r->cbdata = (int) kv(kline, "cbdata", 0); r->live_every = (int) kv(kline, "livetx", 0);
     char mode[16] = "proto"; kvs(kline, "mode", mode, sizeof mode); r->raw = !strcmp(mode, "raw");
     vf_count = 0; vf_fail_at = kv(kline, "failat", -1);
     long live0 = vf_live;
-    fprintf(r->out, "{\"e\":\"Reset\",\"run\":\"%s\",\"p\":%d,\"cfg\":{\"autod\":%s,\"maxtx\":%ld,\"hard\":%ld,\"mode\":\"%s\",\"wf\":%s,\"n\":%ld,\"pers\":%ld,\"failat\":%ld,\"cls\":\"",
+    fprintf(r->out, "{\"e\":\"Reset\",\"run\":\"%s\",\"p\":%d,\"cfg\":{\"autod\":%s,\"maxtx\":%ld,\"hard\":%ld,\"mode\":\"%s\",\"wf\":%s,\"ids\":%s,\"n\":%ld,\"pers\":%ld,\"failat\":%ld,\"pumpdir\":\"%s\",\"pumpstart\":%ld,\"cls\":\"",
             name, pid, kv(kline, "autod", 0) ? "true" : "false", kv(kline, "maxtx", 0), kv(kline, "hard", 18000), mode,
-            kv(kline, "wf", 0) ? "true" : "false", kv(kline, "n", -1), kv(kline, "pers", 9), vf_fail_at);
+            kv(kline, "wf", 0) ? "true" : "false", kv(kline, "ids", 0) ? "true" : "false", kv(kline, "n", -1), kv(kline, "pers", 9), vf_fail_at,
+            kv(kline, "pumpdir", -1) == 0 ? "req" : kv(kline, "pumpdir", -1) == 1 ? "res" : "none", kv(kline, "pumpstart", 0));
     char cls[64] = ""; kvs(kline, "cls", cls, sizeof cls); fputs(cls, r->out); fputs("\"}}\n", r->out);
+    fflush(r->out);       /* the Reset record survives a crash inside the scenario */
     r->cfg = cfg_make(kline);
     r->connp = r->cfg ? htp_connp_create(r->cfg) : NULL;
     int created = r->connp != NULL;
@@ -503,8 +537,8 @@ static void run_scenario(rec_t *r, char **lines, int nl, const char *name, int p
     if (r->cfg) htp_config_destroy(r->cfg);
     r->connp = NULL; r->cfg = NULL;
     for (int i = 0; i < 64; i++) { free(r->expq[i].p); free(r->exps[i].p); r->expq[i].p = r->exps[i].p = NULL; }
-    fprintf(r->out, "{\"e\":\"End\",\"live\":%ld,\"san\":false,\"what\":\"\",\"stall\":%s,\"leftq\":%ld,\"lefts\":%ld,\"closed\":%s,\"ntx\":%ld,\"ncb\":%ld,\"allocs\":%ld,\"failfn\":\"%s\"}\n",
-            vf_live - live0, r->stall ? "true" : "false", leftq, lefts, closed ? "true" : "false", ntx, r->ncb, vf_count,
+    fprintf(r->out, "{\"e\":\"End\",\"live\":%ld,\"san\":false,\"what\":\"\",\"stall\":%s,\"leftq\":%ld,\"lefts\":%ld,\"closed\":%s,\"ntx\":%ld,\"nser\":%ld,\"ncb\":%ld,\"allocs\":%ld,\"failfn\":\"%s\"}\n",
+            vf_live - live0, r->stall ? "true" : "false", leftq, lefts, closed ? "true" : "false", ntx, g_serial, r->ncb, vf_count,
             (vf_fail_at > 0 && vf_count >= vf_fail_at) ? vf_fail_fn : "");
     fflush(r->out);
 }
@@ -519,6 +553,7 @@ int main(int argc, char **argv) {
     rec.out = stdout;
     R = &rec;
     htp_verif_sink = sink;
+    signal(SIGALRM, on_alarm);
     static char buf[1 << 22];
     setvbuf(stdout, NULL, _IOFBF, 1 << 20);
     char **lines = NULL; int nl = 0, cap = 0; char name[256] = ""; long idx = -1, done = 0;
